@@ -156,11 +156,53 @@ def job_structure():
     # AST structure of the epilogue and of the screening bound
     node = source.find_def(OV, "compute_overlap")
     src = ast.unparse(node)
-    calls = [n for n in ast.walk(node) if isinstance(n, ast.Call) and isinstance(n.func, ast.Name) and n.func.id == "convert_conventions"]
-    ok = len(calls) == 2 and all(any(kw.arg == "reverse" and isinstance(kw.value, ast.Constant) and kw.value.value is True for kw in c.keywords) and ast.unparse(c.args[1]) == "OVERLAP_CONVENTIONS" for c in calls) and {ast.unparse(c.args[0]) for c in calls} == {"obasis0", "obasis1"}
-    led.record(f"{OV}.compute_overlap::post.rows-and-columns-go-from-the-internal-order-to-each-basis'-conventions-(reverse=True)", "post", "discharged" if ok else "unknown", "ast", 0.0, detail=str([ast.unparse(c) for c in calls]))
-    ok = "overlap[permutation0] * signs0.reshape(-1, 1)" in src and "overlap[:, permutation1] * signs1" in src
-    led.record(f"{OV}.compute_overlap::post.permutation-then-sign-on-rows-(basis-0)-and-columns-(basis-1)", "post", "discharged" if ok else "unknown", "ast", 0.0)
+    # epilogue (the statements after the last top-level loop), executed as it stands on a matrix with distinct entries,
+    # for every pair of signed permutations that convert_conventions may return: rows go from the internal order to the
+    # conventions of basis 0 and columns to those of basis 1 (reverse=True), out[i, j] = s0[i] s1[j] S[p0[i], p1[j]]
+    import itertools
+
+    top_loops = [st for st in node.body if isinstance(st, ast.For)]
+    tail = node.body[node.body.index(top_loops[-1]) + 1 :] if top_loops else []
+    ret = source.returned_names(node)
+    loop_names = {n.id for n in ast.walk(top_loops[-1]) if isinstance(n, ast.Name)} if top_loops else set()
+    acc = [nm for nm in ret if nm in loop_names and nm not in ("np",)]
+    bad, ncomb = None, 0
+    if tail and acc:
+        fdef = ast.FunctionDef(name="_epilogue", args=ast.arguments(posonlyargs=[], args=[ast.arg(arg=a_) for a_ in (acc[0], "obasis0", "obasis1", "identical", "convert_conventions", "OVERLAP_CONVENTIONS", "np")], kwonlyargs=[], kw_defaults=[], defaults=[]), body=tail, decorator_list=[], type_params=[])
+        mod_ = ast.Module(body=[fdef], type_ignores=[])
+        ast.fix_missing_locations(mod_)
+        ns = {}
+        exec(compile(mod_, "<compute_overlap epilogue>", "exec"), ns)  # noqa: S102
+        sentinel, tag0, tag1 = object(), object(), object()
+        S0 = np.arange(1.0, 10.0).reshape(3, 3) ** 2 + np.arange(3.0)
+        sperms = [(np.array(p), np.array(sg)) for p in itertools.permutations(range(3)) for sg in itertools.product((1, -1), repeat=3)]
+        for identical in (True, False):
+            for p0, s0 in sperms:
+                for p1, s1 in ([(p0, s0)] if identical else sperms):
+                    ncomb += 1
+                    calls_seen = []
+
+                    def stub(basis, conv, reverse=False):
+                        calls_seen.append((basis, conv, reverse))
+                        return (p0.copy(), s0.copy()) if basis is tag0 else (p1.copy(), s1.copy())
+
+                    try:
+                        got = ns["_epilogue"](S0.copy(), tag0, tag0 if identical else tag1, identical, stub, sentinel, np)
+                    except Exception as exc:  # noqa: BLE001
+                        bad = {"error": repr(exc)}
+                        break
+                    want = (S0[p0] * s0[:, None])[:, p1] * s1
+                    okc = all(c[1] is sentinel and c[2] is True for c in calls_seen) and {id(c[0]) for c in calls_seen} <= {id(tag0), id(tag1)}
+                    if not okc or np.shape(got) != want.shape or not np.array_equal(got, want):
+                        bad = {"identical": identical, "p0": p0.tolist(), "s0": s0.tolist(), "p1": p1.tolist(), "s1": s1.tolist(), "conventions_calls_ok": okc}
+                        break
+                if bad:
+                    break
+            if bad:
+                break
+    else:
+        bad = {"error": "no epilogue found after the shell loops"}
+    led.record(f"{OV}.compute_overlap::post.rows-and-columns-go-from-the-internal-order-to-each-basis'-conventions-(reverse=True)", "post", "refuted" if bad else "discharged", "eval", 0.0, detail=f"epilogue executed for {ncomb} pairs of signed permutations (size 3), one- and two-basis case", witness=bad)
     ok = src.count("convert_to_segmented(") == 2 and "obasis0 = convert_to_segmented(obasis0)" in src and "obasis1 = convert_to_segmented(obasis1)" in src
     led.record(f"{OV}.compute_overlap::post.both-bases-are-segmented-first-(C14)", "post", "discharged" if ok else "unknown", "ast", 0.0)
     ok = "a0_min = np.min(shell0.exponents)" in src and "a1_min = np.min(shell1.exponents)" in src and "np.exp(-a0_min * a1_min * rij_norm_sq / (a0_min + a1_min))" in src and "if prefactor_max > 1e-15" in src
@@ -206,51 +248,54 @@ def rand_basis(ncen, conv, lmax):
         shells.append(Shell(int(rng.integers(0, ncen)), ls, ks, ex, rng.normal(size=(nexp, ncon))))
     return MolecularBasis(shells, conv, "L2")
 for it in range(npairs):
-    ncen = int(rng.integers(1, 5))
-    coords = rng.normal(size=(ncen, 3)) * rng.choice([0.5, 2.0, 6.0])
-    if ncen > 1 and rng.random() < 0.4: coords[1] = coords[0]      # coincident centers
-    lmax = 3 if it % 4 else 5
-    conv0 = [HORTON2_CONVENTIONS, CCA_CONVENTIONS, rand_conv()][it % 3]
-    b0 = rand_basis(ncen, conv0, lmax)
-    hist = dict(it=it, ncen=ncen, shells=[(s.icenter, s.angmoms.tolist(), s.kinds.tolist(), s.exponents.round(3).tolist()) for s in b0.shells])
-    cases += 1
-    S = compute_overlap(b0, coords)
-    full, dropped = oo.overlap_oracle(b0, coords, screened=1e-15)
-    ref = oo.apply_conventions(oo.apply_conventions(full - dropped, b0, 0), b0, 1)
-    tol = 1e-11 * max(1.0, np.abs(ref).max()) + 2e-14
-    if S.shape != ref.shape or np.abs(S - ref).max() > tol: fails.append((hist, "single-basis overlap differs from the inner products of the documented functions", float(np.abs(S - ref).max()) if S.shape == ref.shape else "shape"))
-    if np.abs(dropped).max() > 1e-13: fails.append((hist, "prefactor screening leaves out contributions far above the 1e-15 threshold", float(np.abs(dropped).max())))
-    if np.abs(S - S.T).max() > 1e-12 * max(1, np.abs(S).max()): fails.append((hist, "single-basis overlap is not symmetric"))
-    w = np.linalg.eigvalsh((S + S.T) / 2)
-    if w.min() < -1e-9 * max(1, np.abs(S).max()): fails.append((hist, "single-basis overlap is not positive semidefinite", float(w.min())))
-    shift = rng.normal(size=3) * 3
-    St = compute_overlap(b0, coords + shift)
-    if np.abs(St - S).max() > 1e-9 * max(1, np.abs(S).max()): fails.append((hist, "overlap changes under translation of all centers"))
-    # two bases, different conventions / geometry
-    conv1 = [CCA_CONVENTIONS, rand_conv(), HORTON2_CONVENTIONS][it % 3]
-    b1 = rand_basis(ncen, conv1, lmax)
-    coords1 = coords + rng.normal(size=coords.shape) * rng.choice([0.0, 1.0])
-    cases += 1
-    S01 = compute_overlap(b0, coords, b1, coords1)
-    S10 = compute_overlap(b1, coords1, b0, coords)
-    full01, dropped01 = oo.overlap_oracle(b0, coords, b1, coords1, screened=1e-15)
-    ref01 = oo.apply_conventions(oo.apply_conventions(full01 - dropped01, b0, 0), b1, 1)
-    tol = 1e-11 * max(1.0, np.abs(ref01).max()) + 2e-14
-    if S01.shape != ref01.shape or np.abs(S01 - ref01).max() > tol: fails.append((hist, "two-basis overlap differs from the inner products of the documented functions", float(np.abs(S01 - ref01).max()) if S01.shape == ref01.shape else "shape"))
-    if np.abs(dropped01).max() > 1e-13: fails.append((hist, "prefactor screening leaves out contributions far above the 1e-15 threshold", float(np.abs(dropped01).max())))
-    if np.abs(S01 - S10.T).max() > 1e-12 * max(1, np.abs(S01).max()): fails.append((hist, "exchanging the two bases does not transpose the matrix"))
-    # the very same basis object at two geometries (a displaced copy of the molecule) is still a two-basis call
-    coords2 = coords + rng.normal(size=coords.shape) * 0.7
-    cases += 1
-    Ssame = compute_overlap(b0, coords, b0, coords2)
-    fulls, dropps = oo.overlap_oracle(b0, coords, b0, coords2, screened=1e-15)
-    refs = oo.apply_conventions(oo.apply_conventions(fulls - dropps, b0, 0), b0, 1)
-    if Ssame.shape != refs.shape or np.abs(Ssame - refs).max() > 1e-11 * max(1.0, np.abs(refs).max()) + 2e-14: fails.append((hist, "overlap of one basis object at two geometries differs from the inner products of the documented functions", float(np.abs(Ssame - refs).max()) if Ssame.shape == refs.shape else "shape"))
-    # changing conventions permutes / sign-flips accordingly
-    b0h = MolecularBasis(b0.shells, HORTON2_CONVENTIONS, "L2")
-    Sh = compute_overlap(b0h, coords)
-    back = oo.apply_conventions(oo.apply_conventions(Sh, b0, 0), b0, 1)
-    if np.abs(back - S).max() > 1e-12 * max(1, np.abs(S).max()): fails.append((hist, "changing conventions does not permute and sign-flip rows and columns accordingly"))
+  try:
+      ncen = int(rng.integers(1, 5))
+      coords = rng.normal(size=(ncen, 3)) * rng.choice([0.5, 2.0, 6.0])
+      if ncen > 1 and rng.random() < 0.4: coords[1] = coords[0]      # coincident centers
+      lmax = 3 if it % 4 else 5
+      conv0 = [HORTON2_CONVENTIONS, CCA_CONVENTIONS, rand_conv()][it % 3]
+      b0 = rand_basis(ncen, conv0, lmax)
+      hist = dict(it=it, ncen=ncen, shells=[(s.icenter, s.angmoms.tolist(), s.kinds.tolist(), s.exponents.round(3).tolist()) for s in b0.shells])
+      cases += 1
+      S = compute_overlap(b0, coords)
+      full, dropped = oo.overlap_oracle(b0, coords, screened=1e-15)
+      ref = oo.apply_conventions(oo.apply_conventions(full - dropped, b0, 0), b0, 1)
+      tol = 1e-11 * max(1.0, np.abs(ref).max()) + 2e-14
+      if S.shape != ref.shape or np.abs(S - ref).max() > tol: fails.append((hist, "single-basis overlap differs from the inner products of the documented functions", float(np.abs(S - ref).max()) if S.shape == ref.shape else "shape"))
+      if np.abs(dropped).max() > 1e-13: fails.append((hist, "prefactor screening leaves out contributions far above the 1e-15 threshold", float(np.abs(dropped).max())))
+      if np.abs(S - S.T).max() > 1e-12 * max(1, np.abs(S).max()): fails.append((hist, "single-basis overlap is not symmetric"))
+      w = np.linalg.eigvalsh((S + S.T) / 2)
+      if w.min() < -1e-9 * max(1, np.abs(S).max()): fails.append((hist, "single-basis overlap is not positive semidefinite", float(w.min())))
+      shift = rng.normal(size=3) * 3
+      St = compute_overlap(b0, coords + shift)
+      if np.abs(St - S).max() > 1e-9 * max(1, np.abs(S).max()): fails.append((hist, "overlap changes under translation of all centers"))
+      # two bases, different conventions / geometry
+      conv1 = [CCA_CONVENTIONS, rand_conv(), HORTON2_CONVENTIONS][it % 3]
+      b1 = rand_basis(ncen, conv1, lmax)
+      coords1 = coords + rng.normal(size=coords.shape) * rng.choice([0.0, 1.0])
+      cases += 1
+      S01 = compute_overlap(b0, coords, b1, coords1)
+      S10 = compute_overlap(b1, coords1, b0, coords)
+      full01, dropped01 = oo.overlap_oracle(b0, coords, b1, coords1, screened=1e-15)
+      ref01 = oo.apply_conventions(oo.apply_conventions(full01 - dropped01, b0, 0), b1, 1)
+      tol = 1e-11 * max(1.0, np.abs(ref01).max()) + 2e-14
+      if S01.shape != ref01.shape or np.abs(S01 - ref01).max() > tol: fails.append((hist, "two-basis overlap differs from the inner products of the documented functions", float(np.abs(S01 - ref01).max()) if S01.shape == ref01.shape else "shape"))
+      if np.abs(dropped01).max() > 1e-13: fails.append((hist, "prefactor screening leaves out contributions far above the 1e-15 threshold", float(np.abs(dropped01).max())))
+      if np.abs(S01 - S10.T).max() > 1e-12 * max(1, np.abs(S01).max()): fails.append((hist, "exchanging the two bases does not transpose the matrix"))
+      # the very same basis object at two geometries (a displaced copy of the molecule) is still a two-basis call
+      coords2 = coords + rng.normal(size=coords.shape) * 0.7
+      cases += 1
+      Ssame = compute_overlap(b0, coords, b0, coords2)
+      fulls, dropps = oo.overlap_oracle(b0, coords, b0, coords2, screened=1e-15)
+      refs = oo.apply_conventions(oo.apply_conventions(fulls - dropps, b0, 0), b0, 1)
+      if Ssame.shape != refs.shape or np.abs(Ssame - refs).max() > 1e-11 * max(1.0, np.abs(refs).max()) + 2e-14: fails.append((hist, "overlap of one basis object at two geometries differs from the inner products of the documented functions", float(np.abs(Ssame - refs).max()) if Ssame.shape == refs.shape else "shape"))
+      # changing conventions permutes / sign-flips accordingly
+      b0h = MolecularBasis(b0.shells, HORTON2_CONVENTIONS, "L2")
+      Sh = compute_overlap(b0h, coords)
+      back = oo.apply_conventions(oo.apply_conventions(Sh, b0, 0), b0, 1)
+      if np.abs(back - S).max() > 1e-12 * max(1, np.abs(S).max()): fails.append((hist, "changing conventions does not permute and sign-flip rows and columns accordingly"))
+  except Exception as exc:
+      fails.append((dict(it=it), "compute_overlap raises for supported input", repr(exc)[:200]))
 # translation far from the origin with exactly representable coordinates (the relative geometry is bit-identical):
 # two tight f shells 2^-9 bohr apart, moved by 2^10 and 2^20 bohr
 sh = [Shell(0, [3], ["p"], np.array([1.0e5]), np.array([[1.0]])), Shell(1, [3], ["c"], np.array([1.5e5]), np.array([[1.0]]))]
